@@ -198,3 +198,50 @@ def grads_differ(ga, gb, tol: float, names=None, floor_mult: float = 64.0):
         if not err <= tol * leaf + floor_mult * eps * glob:
             return f"{names[i] if names else 'leaf %d' % i}: abs err {err:.3e} (leaf scale {leaf:.3e}, largest gradient {glob:.3e}, rel {err / max(leaf, 1e-300):.3e})"
     return None
+
+
+# ----------------------------------------------------------------------------- call forms
+def positional_call(f: Callable, args: tuple, kwargs: Dict[str, Any]) -> Any:
+    """f(*args, **kwargs) re-spelled with every positional-or-keyword argument up to the last one given passed BY POSITION
+    (defaults fill the gaps). Keyword-only / **kwargs parameters stay keywords. The documented parameter order is part of a
+    public signature: a reordering or a positional/keyword mix-up inside a wrapper only shows in this spelling."""
+    import inspect
+
+    try:
+        sig = inspect.signature(f)
+        ba = sig.bind(*args, **kwargs)
+    except (TypeError, ValueError):
+        return f(*args, **kwargs)
+    given = set(ba.arguments)
+    ba.apply_defaults()
+    pos, kw, last = [], {}, -1
+    params = list(sig.parameters.values())
+    for i, p in enumerate(params):
+        if p.kind in (p.POSITIONAL_ONLY, p.POSITIONAL_OR_KEYWORD) and p.name in given:
+            last = i
+    for i, p in enumerate(params):
+        if p.kind in (p.POSITIONAL_ONLY, p.POSITIONAL_OR_KEYWORD):
+            if i <= last:
+                pos.append(ba.arguments[p.name])
+        elif p.kind == p.VAR_POSITIONAL:
+            if i <= last or ba.arguments.get(p.name):
+                pos.extend(ba.arguments.get(p.name, ()))
+        elif p.kind == p.KEYWORD_ONLY:
+            if p.name in given:
+                kw[p.name] = ba.arguments[p.name]
+        elif p.kind == p.VAR_KEYWORD:
+            kw.update(ba.arguments.get(p.name, {}))
+    return f(*pos, **kw)
+
+
+class PositionalProxy:
+    """module-like object whose functions are called through positional_call"""
+
+    def __init__(self, mod: Any):
+        self._mod = mod
+
+    def __getattr__(self, name: str) -> Any:
+        f = getattr(self._mod, name)
+        if callable(f) and not isinstance(f, type):
+            return lambda *a, **k: positional_call(f, a, k)
+        return f
